@@ -45,11 +45,12 @@ def plan(tier, seed, complete=False):
 
 
 def witness_item(k):
-    return {"key": "W:" + k["id"], "doc": k["witness"]["doc"]}
+    w = k["witness"]
+    return {"key": "W:" + k["id"], "case": w["case"]} if "case" in w else {"key": "W:" + k["id"], "doc": w["doc"]}
 
 
 def replay_item(rp):
-    return {"key": str(rp["case"]), "doc": rp["detail"]["doc"]}
+    return {"key": str(rp["case"]), "case": str(rp["case"])}
 
 
 def case_doc(i):
@@ -71,7 +72,11 @@ def run_items(items, job):
     R = PL.Result()
     rules = sorted(ruleoracle.ORACLES)
     for it in items:
-        if isinstance(it, dict):
+        if isinstance(it, dict) and it.get("case"):
+            key = it["key"]
+            idx = int(str(it["case"]).split(":")[1])
+            doc = case_doc(idx)
+        elif isinstance(it, dict):
             key, doc = it["key"], it["doc"]
             idx = PL.mix(doc) & 0xFFFF
         else:
@@ -95,7 +100,7 @@ def run_items(items, job):
             continue
         R.count("documents_in_agreement")
         v = set()
-        detail = {"doc": doc, "findings": []}
+        detail = {"doc": doc, "case": (it if isinstance(it, str) else it.get("case")), "findings": []}
         r = PR(0x06000000 + idx)
         for rule in rules:
             fn, cfgs = ruleoracle.ORACLES[rule]
